@@ -3,6 +3,7 @@ import SodiumModel.Driver.C01
 import SodiumModel.Driver.C03
 import SodiumModel.Driver.C09
 import SodiumModel.Model.Random
+import SodiumModel.Model.RandomInternal
 import SodiumModel.Spec.Sha512
 import SodiumModel.Spec.Blake2b
 import SodiumModel.Spec.Ed25519
@@ -65,6 +66,84 @@ def genInner (api : String) (script : Bytes) (extra : List String) : Option Stri
 def gen (api : String) (script : Bytes) (extra : List String) : Option String :=
   if script.length < need api then (genInner api script extra).map fun _ => "exhausted" else genInner api script extra
 
+
+/-! ### rngint: histories of calls on the internal generator (`Model/RandomInternal.lean`), outside world scripted on the op line -/
+section RngInt
+open Sodium.Model.RngInt
+
+def parseEnt (s : String) : Option (List (Option Bytes)) :=
+  if s = "-" then some [] else (s.splitOn ",").mapM fun t => if t = "!" then some none else (ofHex t).map some
+
+def parseTimes (s : String) : Option (List (Option (UInt64 × UInt64))) :=
+  if s = "-" then some [] else (s.splitOn ",").mapM fun t =>
+    if t = "!" then some none else
+    match t.splitOn "." with
+    | [a, b] => do
+      let a ← a.toNat?; let b ← b.toNat?
+      if a < 2 ^ 64 ∧ b < 2 ^ 63 then some (some (UInt64.ofNat a, UInt64.ofNat b)) else none
+    | _ => none
+
+def parsePids (s : String) : Option (List Int) := (s.splitOn ",").mapM fun t => t.toInt?
+
+def mkEnv (ent : List (Option Bytes)) (times : List (Option (UInt64 × UInt64))) (pids : List Int) (openOk : Bool) : Env where
+  getentropy := fun k _ => (ent[k]?).join
+  gettimeofday := fun k => (times[k]?).join
+  getpid := fun k => if pids.isEmpty then 0 else pids.getD (min k (pids.length - 1)) 0
+  rdrand := fun _ => 0
+  hasRdrand := false
+  devOpen := fun _ => if openOk then some 3 else none
+
+def trailer (c : Ctr) : String :=
+  s!"ent={if c.ent.isEmpty then "-" else ",".intercalate (c.ent.map toString)} t={c.time} p={c.pid} o={c.opn}"
+
+/-- one call: `none` = bad token -/
+def rcall (E : Env) (tok : String) (d : DSt St) : Option (Res (String × DSt St)) :=
+  let I := internalImpl chacha20 E
+  let lift {α : Type} (r : Res (α × St)) (f : α → String) : Res (String × DSt St) :=
+    r.bind fun (a, st) => .ok (f a, { d with w := st })
+  let liftD {α : Type} (r : Res (α × DSt St)) (f : α → String) : Res (String × DSt St) :=
+    r.bind fun (a, d') => .ok (f a, d')
+  match tok.splitOn ":" with
+  | ["buf", n] => do let n ← n.toNat?; some (lift (RngInt.buf chacha20 E n d.w) toHex)
+  | ["rnd"] => some (lift (RngInt.random chacha20 E d.w) fun v => toString v.toNat)
+  | ["stir"] => some ((RngInt.stir E d.w).bind fun st => .ok ("ok", { d with w := st }))
+  | ["close"] => some (let r := RngInt.close d.w; .ok (toString r.1, { d with w := r.2 }))
+  | ["Buf", n] => do
+    let n ← n.toNat?
+    some (liftD (Dispatch.randombytes_buf I n d) fun o => match o with | none => "-" | some b => toHex b)
+  | ["Bytes", n] => do
+    let n ← n.toNat?
+    some (liftD (Dispatch.randombytes I n d) fun o => match o with | none => "-" | some b => toHex b)
+  | ["Rnd"] => some (liftD (Dispatch.randombytes_random I d) fun v => toString v.toNat)
+  | ["Stir"] => some ((Dispatch.randombytes_stir I d).bind fun d' => .ok ("ok", d'))
+  | ["Close"] => some (liftD (Dispatch.randombytes_close d) toString)
+  | ["Uni", n] => do
+    let n ← n.toNat?
+    if n ≥ 2 ^ 32 then none else
+    some (liftD (Dispatch.randombytes_uniform I 100000 (UInt32.ofNat n) d) fun o => match o with | none => "exhausted" | some v => toString v.toNat)
+  | _ => none
+
+/-- run the calls left to right; the answer line = one token per call, `misuse` / `abort` if cut short, the call log -/
+def rrun (E : Env) : List String → DSt St → List String → Option String
+  | [], d, acc => some (" ".intercalate (acc.reverse ++ [trailer d.w.c]))
+  | t :: ts, d, acc =>
+    match rcall E t d with
+    | none => none
+    | some (.misuse c) => some (" ".intercalate (acc.reverse ++ ["misuse", trailer c]))
+    | some (.assertFail c) => some (" ".intercalate (acc.reverse ++ ["abort", trailer c]))
+    | some (.ok (o, d')) => rrun E ts d' (o :: acc)
+
+def handleRngint (args : List String) : Option String :=
+  match args with
+  | [ent, times, pids, dev, calls] => do
+    let ent ← parseEnt ent; let times ← parseTimes times; let pids ← parsePids pids
+    if dev ≠ "ok" ∧ dev ≠ "fail" then none else
+    let E := mkEnv ent times pids (dev = "ok")
+    rrun E (calls.splitOn ",") { impl := some (internalImpl chacha20 E), w := St.init } []
+  | _ => none
+
+end RngInt
+
 /-- `.h1/.h2/.h3` = the same operation after randombytes_close / randombytes_stir / both on the installed source:
     by the property the answer depends only on the bytes the installed source supplies -/
 def baseOp (op : String) : String :=
@@ -95,6 +174,7 @@ def handle (op0 : String) (args : List String) : Option String :=
     let size ← parseNat? size
     some (if size > 0x4000000000 then "misuse" else "proceeds")
   | "rng.gen", api :: script :: extra => do gen api (← ofHex script) extra
+  | "rngint", args => some ((handleRngint args).getD badArgs)
   | _, _ => none
 
 end Sodium.Driver.C18
